@@ -181,10 +181,15 @@ def walkProd (p : Prog) : Nat → Nat → Option Slot
     | .add => some (.addq i)
     | _ => walkProd p f (p.nd i).a
 
-/-- searchable module whose output the slot consumes (`none`: a placeholder) -/
+/-- the call site whose producer a layer module keeps as its input quantizer: a module invoked
+more than once is registered at its FIRST call site only (580a9ad) -/
+def firstSite (p : Prog) (i : Nat) : Nat := if (p.nd i).dup then (p.nd i).tf else i
+
+/-- searchable module whose output the slot consumes (`none`: a placeholder); for a layer module
+invoked more than once: at its first call site -/
 def producer (p : Prog) : Slot → Option Slot
   | .inq _ => none
-  | .layer i => walkProd p (i + 1) (p.nd i).a
+  | .layer i => walkProd p (firstSite p i + 1) (p.nd (firstSite p i)).a
   | .addq i => walkProd p (i + 1) (p.nd i).a
 
 /-- `in_mps_quantizer` of a searchable module -/
